@@ -426,7 +426,7 @@ pub fn run(ctx: &Ctx) -> Report {
     let mut rep = Report::new("C13");
     rep.rule = "cases = (transitions, types, leap seconds, optional rule) tuples given to TimeZone::new and TimeZoneRef::new: zones valid by construction from the C03/C05 generators (must be accepted by both), every single-defect perturbation the statement lists applied at first / middle / last position \
                 (index = len or beyond; two equal / two inverted times; first leap correction 0 / 2 / -2 / i32::MIN; first leap time -1; spacing 2 419 198; step 0 / 2; rule differing from the last type in exactly one of offset / flag / designation, from either side), i64/i32 extremes, and random malformed tuples (Ok/Err only). \
-                Oracle: M-zone validator, the C13 sentence clause by clause. LocalTimeType::new over offsets incl. i32::MIN and designations of length 0..9 over good and bad characters. distinct_nontrivial = distinct perturbed or generated tuples (enumerated per base zone)."
+                Oracle: M-zone validator, the C13 sentence clause by clause. LocalTimeType::new over offsets incl. i32::MIN and designations of length 0..9 over good and bad characters, and of lengths around 256, 512, 1024, 2^15, 2^16, 2^17. distinct_nontrivial = distinct perturbed or generated tuples (enumerated per base zone)."
         .into();
     rep.required_classes = vec![
         "last_transition_on_a_leap_record_with_rule_switch_there",
@@ -468,6 +468,7 @@ pub fn run(ctx: &Ctx) -> Report {
         "ltt_offset_i32_min",
         "ltt_designation_length",
         "ltt_designation_char",
+        "ltt_designation_longer_than_255",
         "leap_table_at_integer_extremes",
         "leap_table_at_integer_extremes_workload",
     ];
@@ -669,6 +670,38 @@ pub fn run(ctx: &Ctx) -> Report {
         }
         check_ltt(l, off, false, None);
         l.op_n("LocalTimeType::new", 201);
+    });
+    // long designations: lengths around the width limits of narrow integers (a length reduced modulo 256 or 65536
+    // before the 3..=7 test passes for 259..=263 octets), all of good characters, some with a bad character at the
+    // end (never examined by a constructor that has cut the input)
+    run_cases(ctx, &mut rep, 6, 1, |l, rng, _| {
+        let mut lens: Vec<usize> = vec![];
+        for base in [0usize, 256, 512, 1024, 32768, 65536, 131072] {
+            for d in 0..=9 {
+                lens.push(base + d);
+            }
+            if base >= 8 {
+                lens.extend([base - 3, base - 2, base - 1]);
+            }
+        }
+        lens.extend([100, 255, 300, 4096, 65535 + 8]);
+        lens.sort();
+        lens.dedup();
+        let mut n = 0;
+        for &len in &lens {
+            let mut d: Vec<u8> = (0..len).map(|_| *rng.pick(good)).collect();
+            check_ltt(l, 3600, false, Some(&d));
+            n += 1;
+            if len > 8 {
+                l.class("ltt_designation_longer_than_255");
+                let k = len - 1;
+                d[k] = b',';
+                check_ltt(l, 3600, true, Some(&d));
+                n += 1;
+            }
+        }
+        l.op_n("LocalTimeType::new", n);
+        l.distinct_enumerated += n;
     });
     // every single byte as one of 3 characters
     run_cases(ctx, &mut rep, 5, 1, |l, _rng, _| {
